@@ -245,6 +245,10 @@ func Names(r *rand.Rand, n int, o NameOpts) []string {
 	var out []string
 	for len(out) < n {
 		s := Name(r, o)
+		if s == "h" || s == "help" {
+			// the CLI library gives every command a "help, h" sub-command; see DESIGN (finding D14)
+			continue
+		}
 		if !seen[s] {
 			seen[s] = true
 			out = append(out, s)
